@@ -246,6 +246,14 @@ func streamHview() {
 			emitPair(tag+"-until-without-from", a, b, true)
 			a.cfg.Validity, b.cfg.Validity = Validity{Duration: "3y"}, Validity{Duration: "4y"}
 			emitPair(tag+"-duration-without-from", a, b, true)
+			// durations that are nearly, but not, the same length (a change that reduces a duration to days with 30-day months and
+			// 365-day years makes them collide)
+			for _, pr := range [][2]string{{"12m", "360d"}, {"1m", "30d"}, {"1y", "365d"}, {"2y", "730d"}, {"1y1m", "395d"}, {"24m", "720d"}} {
+				if i%3 == 0 || thorough() {
+					a.cfg.Validity, b.cfg.Validity = Validity{Duration: pr[0]}, Validity{Duration: pr[1]}
+					emitPair(tag+"-duration-near-"+pr[0]+"-"+pr[1], a, b, true)
+				}
+			}
 		}
 		// a validity inherited from the profile: its end date / duration is certificate relevant with and without a start date
 		{
@@ -260,6 +268,7 @@ func streamHview() {
 			emitPair(tag+"-inherited-until-to-duration", mk(Validity{Until: "2051-01-01"}), mk(Validity{Duration: "9y"}), true)
 			emitPair(tag+"-inherited-from-duration", mk(Validity{From: "2030-01-01", Duration: "2y"}), mk(Validity{From: "2030-01-01", Duration: "3y"}), true)
 			emitPair(tag+"-inherited-same", mk(Validity{Duration: "2y"}), mk(Validity{Duration: "2y"}), false)
+			emitPair(tag+"-inherited-duration-near", mk(Validity{Duration: "12m"}), mk(Validity{Duration: "360d"}), true)
 		}
 		// a second extension with an OID that is already present, and an edit of the first of two equal-OID extensions
 		edit("ext-duplicate-oid", func(s *hside) bool {
